@@ -27,6 +27,7 @@
 #include <sys/stat.h>
 #include <sys/ioctl.h>
 #include <sys/uio.h>
+#include <sys/socket.h>
 #include <fcntl.h>
 #include <signal.h>
 #include <dlfcn.h>
@@ -75,6 +76,37 @@ static struct char_vector notes;
 static int ctl_in = 3, ctl_out = 4;
 static int in_wr = -1, out_fd = -1;
 static off_t out_pos;
+/* VERIF_SOCKPAIR: the server channel is one socket, as when the ircd runs its helper on a socketpair - the daemon's
+ * stdin and stdout are the same open file description.  The host keeps the other end: it writes the input there
+ * and reads the daemon's output from it. */
+static int sock_mode, sock_peer = -1;
+static char *sock_acc;
+static size_t sock_acc_n;
+static int stall_next;
+
+static void sock_bufs(int small)
+{
+    int v = small ? 2304 : (32 << 20);
+    if (small) {
+        setsockopt(1, SOL_SOCKET, SO_SNDBUF, &v, sizeof v);
+    } else {
+        setsockopt(1, SOL_SOCKET, SO_SNDBUFFORCE, &v, sizeof v);
+        setsockopt(sock_peer, SOL_SOCKET, SO_RCVBUFFORCE, &v, sizeof v);
+        setsockopt(sock_peer, SOL_SOCKET, SO_SNDBUFFORCE, &v, sizeof v);
+        setsockopt(0, SOL_SOCKET, SO_RCVBUFFORCE, &v, sizeof v);
+    }
+}
+
+static void sock_drain(void)
+{
+    char buf[65536];
+    ssize_t r;
+    while ((r = recv(sock_peer, buf, sizeof buf, MSG_DONTWAIT)) > 0) {
+        sock_acc = realloc(sock_acc, sock_acc_n + r + 1);
+        memcpy(sock_acc + sock_acc_n, buf, r);
+        sock_acc_n += r;
+    }
+}
 static int broke;
 static int dispatch_reached;
 
@@ -505,12 +537,21 @@ static void reply(const char *status)
      * message it forgets to flush stays invisible, as it would in production, until something else flushes. */
     if (!strncmp(status, "EXIT", 4) || !strcmp(status, "TEARDOWN"))
         fflush(stdout);
+    if (sock_mode) {
+        sock_drain();
+        n = sock_acc_n;
+        b = malloc(n + 1);
+        if (n)
+            memcpy(b, sock_acc, n);
+        sock_acc_n = 0;
+    } else {
     fstat(out_fd, &st);
     n = st.st_size - out_pos;
     b = malloc(n + 1);
     if (n && pread(out_fd, b, n, out_pos) != (ssize_t)n)
         n = 0;
     out_pos += n;
+    }
     hl = snprintf(hdr, sizeof hdr, "%s %zu %u\n", status, n, notes.used);
     wr_full(ctl_out, hdr, hl);
     if (n)
@@ -532,7 +573,19 @@ static void loop_once(struct event_base *b)
 
 static void step(struct event_base *b)
 {
-    int pend, guard = 0;
+    int pend, guard = 0, stalled = 0;
+    if (sock_mode && stall_next) {
+        /* the server is slow to read for the length of this step.  A daemon whose end of the channel is blocking
+         * just waits for it - nothing is lost, which the large buffer stands for.  One that has made the shared
+         * description non-blocking gets EAGAIN once the small socket buffer is full and has to cope. */
+        stall_next = 0;
+        if (fcntl(1, F_GETFL) & O_NONBLOCK) {
+            sock_bufs(1);
+            stalled = 1;
+            sim_note("PEERSLOW channel is non-blocking: small socket buffer");
+        } else
+            sim_note("PEERSLOW channel is blocking: the daemon would wait");
+    }
     do {
         loop_once(b);
         pend = 0;
@@ -540,6 +593,10 @@ static void step(struct event_base *b)
     } while (pend > 0 && !broke && ++guard < 100000);
     if (pend > 0 && !broke)
         sim_note("STALL pending=%d", pend);
+    if (stalled) {
+        sock_bufs(0);
+        sock_drain();
+    }
     /* a few more passes with the clock standing still: work that a handler deferred to "the next pass of the
      * loop" (a zero-timeout event, an activated event) belongs to this step as well */
     loop_once(b);
@@ -624,12 +681,16 @@ int event_base_dispatch(struct event_base *b)
         } else if (!strncmp(hdr, "RDFAULT ", 8)) {
             rdfault_errno = !strncmp(hdr + 8, "EINTR", 5) ? EINTR : EAGAIN;
             rdfault_count = atoi(hdr + 14) > 0 ? atoi(hdr + 14) : 1;
+        } else if (!strncmp(hdr, "PEERSTALL", 9)) {
+            stall_next = 1;
         } else if (!strncmp(hdr, "FREADSHORT ", 11)) {
             freadshort = atol(hdr + 11);
         } else if (!strncmp(hdr, "FREADFAULT", 10)) {
             freadfault_count = 1;
         } else if (!strncmp(hdr, "EOF", 3)) {
-            if (in_wr >= 0)
+            if (sock_mode)
+                shutdown(sock_peer, SHUT_WR);
+            else if (in_wr >= 0)
                 close(in_wr);
             in_wr = -1;
             step(b);
@@ -694,6 +755,19 @@ int main(int argc, char **argv)
         return 2;
     }
     signal(SIGPIPE, SIG_IGN);
+    if (getenv("VERIF_SOCKPAIR")) {
+        int sv[2];
+        if (socketpair(AF_UNIX, SOCK_STREAM, 0, sv))
+            return 2;
+        dup2(sv[0], 0);
+        dup2(sv[0], 1);
+        close(sv[0]);
+        sock_peer = in_wr = sv[1];
+        sock_mode = 1;
+        sock_bufs(0);
+        fcntl(sock_peer, F_SETFL, O_NONBLOCK);
+        /* (the daemon's end is left as it is: whether it is blocking is the daemon's decision here) */
+    } else {
     if (pipe(p))
         return 2;
     dup2(p[0], 0);
@@ -704,6 +778,7 @@ int main(int argc, char **argv)
     fcntl(in_wr, F_SETFL, O_NONBLOCK);
     out_fd = memfd_create("simhost-stdout", 0);
     dup2(out_fd, 1);
+    }
     atexit(done);
     if (getenv("VERIF_PREQUEUE")) {
         /* the server wrote these bytes while the daemon was still starting: they are readable on the channel
